@@ -228,6 +228,34 @@ def count_axioms(st: State, quantified: bool = False, max_conds: int = 48, meta:
         if atoms is None:
             if meta is not None:
                 meta.extend((r.term, (lambda idx, _r=r: z3.substitute(_r.cond, (_r.g, idx))), hi) for r in recs)
+            # too many regions to enumerate: fall back to pairwise facts -- two counts over the same range whose conditions
+            # are pointwise equivalent are equal, an implied condition counts at most as much; plus bounds and the explicit
+            # index terms (weaker than the region encoding, but enough for "the code's test and the specification's test are
+            # the same predicate")
+            s2 = z3.Solver()
+            s2.set("timeout", 2000)
+            for p in st.pc:
+                if not _has_quantifier(p):
+                    s2.add(p)
+            s2.add(g0 >= 0, g0 < hi)
+            for r in recs:
+                out.append(z3.And(r.term >= 0, r.term <= z3.If(hi > 0, hi, 0)))
+            for i, ci in enumerate(conds):
+                for j, cj in enumerate(conds):
+                    if i < j:
+                        ab = s2.check(ci, z3.Not(cj)) == z3.unsat
+                        ba = s2.check(cj, z3.Not(ci)) == z3.unsat
+                        if ab and ba:
+                            out.append(recs[i].term == recs[j].term)
+                        elif ab:
+                            out.append(recs[i].term <= recs[j].term)
+                        elif ba:
+                            out.append(recs[j].term <= recs[i].term)
+            for path in st.index_terms.get(lid, []):
+                if len(path) == len(pidx) + 1 and all(str(x) == str(y) for x, y in zip(path, pidx)):
+                    t_ = path[-1]
+                    for r, c in zip(recs, conds):
+                        out.append(z3.Implies(z3.And(t_ >= 0, t_ < hi, z3.substitute(c, (g0, t_))), r.term >= 1))
             continue
         ns = [fresh_int("n_atom") for _ in atoms]
         out.append(z3.Sum(ns) == z3.If(hi > 0, hi, 0) if ns else (z3.If(hi > 0, hi, 0) == 0))
@@ -546,7 +574,7 @@ def _discharge(name: str, st: State, goal, timeout_ms: int, pi: int) -> OblResul
         # the solver gave up (typically quantified facts + unbounded ranges): a counter-model with small ranges, if one
         # exists, is found quickly and is a genuine counter-model of the full query (it satisfies every hypothesis)
         small = _small_range_facts(meta)
-        st3, be3, m3, _d3 = smt.prove(hyps + ax + small, goal, timeout_ms)
+        st3, be3, m3, _d3 = smt.prove(hyps + ax + small, goal, 4 * timeout_ms)  # (reached only for obligations that did not discharge)
         if st3 == "failed" and _model_respects_counts(m3, meta) is True:
             return OblResult(name, "failed", be3 + "+small", time.time() - t0, detail, m3, pi)
     if status == "failed" and st.counts:
@@ -557,7 +585,7 @@ def _discharge(name: str, st: State, goal, timeout_ms: int, pi: int) -> OblResul
         if ok is not True:
             # look for a small counter-model (ranges of at most 5 elements, cardinalities spelled out per index)
             small = _small_range_facts(meta)
-            st3, be3, m3, _d3 = smt.prove(hyps + ax + small, goal, timeout_ms)
+            st3, be3, m3, _d3 = smt.prove(hyps + ax + small, goal, 4 * timeout_ms)  # (reached only for obligations that did not discharge)
             if st3 == "failed" and _model_respects_counts(m3, meta) is True:
                 ok, model, backend = True, m3, be3 + "+small"
         if ok is not True:
